@@ -32,6 +32,19 @@ PROPS = {
         "level": "exploration",
         "stages": both("inproc") + [native("child")] + [miri("miri-inproc", scale=0.001)],
     },
+    "C04": {
+        "level": "exploration",
+        "stages": [native("main", timeout=300, timeout_thorough=1200)],
+    },
+    "C07": {
+        "level": "exploration",
+        "stages": both("dispatch") + [miri("miri-dispatch", scale=0.002)],
+    },
+    "C08": {
+        "level": "exploration",
+        "stages": both("inproc") + [miri("miri-inproc", scale=0.01), native("net"),
+                   {"name": "net-memcheck", "engine": "valgrind", "tiers": ["thorough"], "scale": 0.02, "timeout_thorough": 1800}],
+    },
     "C11": {
         "level": "exploration",
         "stages": both("model") + [miri("miri-model", scale=0.004)],
